@@ -22,7 +22,10 @@ CONSTANTS Systems,     \* set of system ids (strings)
           Files,       \* set of file names
           MaxOps,
           CutMode,     \* "none" | "all" | "classes" : which cut offsets Crash may choose
-          ReaderVariant \* "code" | mutants: "ignore-cs-eof", "stop-after-vk"
+          ReaderVariant, \* "code" | mutants: "ignore-cs-eof", "stop-after-vk"
+          AllowLinks,   \* TRUE: names may be hard links / symbolic links to another name's file (Link action)
+          ConvertVariant \* "code" = the source is read completely before the output is created;
+                        \* mutant "create-first" = the output is created (truncated) before the source is read, unless the two NAMES are equal
 
 Fmts == {"c", "r"}
 Total(s, f) == SecLen[s][f][1] + SecLen[s][f][2] + SecLen[s][f][3] + SecLen[s][f][4]
@@ -30,17 +33,28 @@ RECURSIVE Bound(_, _, _)
 Bound(s, f, k) == IF k = 0 THEN 0 ELSE SecLen[s][f][k] + Bound(s, f, k - 1)   \* end offset of section k
 NoFile == [exists |-> FALSE]
 
-VARIABLES files,    \* [Files -> NoFile or [exists, sys, fmt, len]]  (len = bytes present)
+VARIABLES files,    \* [inode -> NoFile or [exists, sys, fmt, len]]  (len = bytes present); inodes are identified by the name that created them
+          ino,      \* [Files -> inode]: which file a NAME refers to.  ln / ln -s make two names refer to one file; creating (truncating),
+                    \* writing and reading go through the name to the file, so every alias sees the effect (os.Create follows symbolic links
+                    \* and truncates the existing inode of a hard link)
           loaded,   \* result of the last Read / Convert: [ok, sys] 
           hist
-vars == <<files, loaded, hist>>
-Init == files = [f \in Files |-> NoFile] /\ loaded = [ok |-> FALSE, sys |-> "none"] /\ hist = <<>>
+vars == <<files, ino, loaded, hist>>
+Init == files = [f \in Files |-> NoFile] /\ ino = [f \in Files |-> f] /\ loaded = [ok |-> FALSE, sys |-> "none"] /\ hist = <<>>
 
 Rec(op) == hist' = Append(hist, op)
 \* setup / import-setup / convert-to-raw: the writer emits the four sections in order
 Write(s, fmt, f) == /\ Len(hist) < MaxOps
-                    /\ files' = [files EXCEPT ![f] = [exists |-> TRUE, sys |-> s, fmt |-> fmt, len |-> Total(s, fmt)]]
-                    /\ UNCHANGED loaded /\ Rec([op |-> "write", sys |-> s, fmt |-> fmt, file |-> f])
+                    /\ files' = [files EXCEPT ![ino[f]] = [exists |-> TRUE, sys |-> s, fmt |-> fmt, len |-> Total(s, fmt)]]
+                    /\ UNCHANGED <<loaded, ino>> /\ Rec([op |-> "write", sys |-> s, fmt |-> fmt, file |-> f])
+\* ln f g / ln -s f g: the name g now refers to f's file (g's previous file, if any, is unlinked)
+Link(f, g, kind) == /\ AllowLinks /\ Len(hist) < MaxOps /\ kind \in {"hard", "sym"}
+                    /\ ino[f] # ino[g] /\ files[ino[f]].exists
+                    /\ \A h \in Files : ino[h] = ino[g] => h = g          \* g is not itself the target of a link (keeps symlink chains out)
+                    /\ ino[f] = f                                        \* links point at original names
+                    /\ ino' = [ino EXCEPT ![g] = ino[f]]
+                    /\ files' = [files EXCEPT ![g] = NoFile]
+                    /\ UNCHANGED loaded /\ Rec([op |-> "link", file |-> f, to |-> g, kind |-> kind])
 \* a crash / interrupted copy leaves any strict prefix
 CutCands(s, fmt) ==
   LET T == Total(s, fmt) IN
@@ -53,10 +67,10 @@ CutCands(s, fmt) ==
              \cup UNION {{B * j + d : j \in 1..(T \div B), d \in {-1, 0, 1}} : B \in {1048576, 4194304}}
              \cup {4096 * j : j \in 1..8} \cup {65536 * j : j \in 1..8}) \cap (0..(T - 1))
        ELSE {}
-Crash(f, cut) == /\ Len(hist) < MaxOps /\ files[f].exists /\ files[f].len = Total(files[f].sys, files[f].fmt)
-                 /\ cut \in CutCands(files[f].sys, files[f].fmt)
-                 /\ files' = [files EXCEPT ![f].len = cut]
-                 /\ UNCHANGED loaded /\ Rec([op |-> "crash", file |-> f, cut |-> cut])
+Crash(f, cut) == /\ Len(hist) < MaxOps /\ files[ino[f]].exists /\ files[ino[f]].len = Total(files[ino[f]].sys, files[ino[f]].fmt)
+                 /\ cut \in CutCands(files[ino[f]].sys, files[ino[f]].fmt)
+                 /\ files' = [files EXCEPT ![ino[f]].len = cut]
+                 /\ UNCHANGED <<loaded, ino>> /\ Rec([op |-> "crash", file |-> f, cut |-> cut])
 \* UnsafeReadFrom: header, pk, vk, cs — each needs its whole section
 SectionsPresent(fl) == Cardinality({k \in 1..4 : Bound(fl.sys, fl.fmt, k) <= fl.len})
 ReadResult(fl) ==
@@ -64,18 +78,23 @@ ReadResult(fl) ==
   ELSE LET n == SectionsPresent(fl) IN
        IF n = 4 \/ (ReaderVariant = "ignore-cs-eof" /\ n = 3) \/ (ReaderVariant = "stop-after-vk" /\ n >= 3)
        THEN [ok |-> TRUE, sys |-> fl.sys] ELSE [ok |-> FALSE, sys |-> "none"]
-Read(f) == /\ Len(hist) < MaxOps /\ loaded' = ReadResult(files[f]) /\ UNCHANGED files
+Read(f) == /\ Len(hist) < MaxOps /\ loaded' = ReadResult(files[ino[f]]) /\ UNCHANGED <<files, ino>>
            /\ Rec([op |-> "read", file |-> f, ok |-> loaded'.ok, sys |-> loaded'.sys])
 \* convert-to-raw: read, then write the raw format
 \* f = g is the in-place conversion (--input and --output name the same file): the source is read completely before the output is created
-Convert(f, g) == /\ Len(hist) < MaxOps
-                 /\ LET r == ReadResult(files[f]) IN
+\* the same holds when the two names are different but refer to one file (hard link, symbolic link)
+Convert(f, g) == /\ Len(hist) < MaxOps /\ UNCHANGED ino
+                 /\ LET clobbered == ConvertVariant = "create-first" /\ f # g /\ ino[f] = ino[g]
+                        r == IF clobbered THEN [ok |-> FALSE, sys |-> "none"] ELSE ReadResult(files[ino[f]]) IN
                       /\ loaded' = r
-                      /\ files' = IF r.ok THEN [files EXCEPT ![g] = [exists |-> TRUE, sys |-> r.sys, fmt |-> "r", len |-> Total(r.sys, "r")]] ELSE files
+                      /\ files' = IF r.ok THEN [files EXCEPT ![ino[g]] = [exists |-> TRUE, sys |-> r.sys, fmt |-> "r", len |-> Total(r.sys, "r")]]
+                                  ELSE IF clobbered THEN [files EXCEPT ![ino[g]] = [exists |-> TRUE, sys |-> @.sys, fmt |-> @.fmt, len |-> 0]]
+                                  ELSE files
                       /\ Rec([op |-> "convert", file |-> f, to |-> g, ok |-> r.ok, sys |-> r.sys])
 Next == \/ \E s \in Systems, fmt \in Fmts, f \in Files : Write(s, fmt, f)
         \/ \E f \in Files : Read(f) \/ (\E g \in Files : Convert(f, g))
-        \/ \E f \in Files : files[f].exists /\ \E cut \in CutCands(files[f].sys, files[f].fmt) : Crash(f, cut)
+        \/ \E f \in Files : files[ino[f]].exists /\ \E cut \in CutCands(files[ino[f]].sys, files[ino[f]].fmt) : Crash(f, cut)
+        \/ \E f, g \in Files, kind \in {"hard", "sym"} : Link(f, g, kind)
 Spec == Init /\ [][Next]_vars
 
 \* C15: a strict prefix never loads
@@ -83,8 +102,10 @@ NeverHalfLoaded == \A f \in Files : files[f].exists /\ files[f].len < Total(file
 \* C11: a complete file reloads to the system that was written, in either format and through conversion
 RoundTrip == \A f \in Files : files[f].exists /\ files[f].len = Total(files[f].sys, files[f].fmt) =>
                 ReadResult(files[f]) = [ok |-> TRUE, sys |-> files[f].sys]
+\* C11 through aliases: converting a loadable file never destroys it, under whatever names input and output are given
+ConvertKeeps == CutMode = "none" => \A f \in Files : files[f].exists => files[f].len = Total(files[f].sys, files[f].fmt)
 LastReadFaithful == hist # <<>> /\ hist[Len(hist)].op \in {"read", "convert"} /\ hist[Len(hist)].ok =>
                       \E f \in Files : files[f].exists /\ files[f].sys = loaded.sys
 Export == Len(hist) = MaxOps => PrintT("TRACE " \o ToJson(hist))
-NoHistView == <<files, loaded>>
+NoHistView == <<files, ino, loaded>>
 ====
